@@ -765,3 +765,74 @@ func VP_C04_history() {
 	vp.Assert(m.TagType() == tag && string(w.b) == string(ref), "conversion does not depend on earlier conversions")
 	vp.Cover("end")
 }
+
+// strings that look like numbers only at first sight (version numbers, ordinals,
+// addresses: "1.20.4", "1st", "10fps", "-foo", "1.5-2") survive binary -> text
+// -> binary, as values and as compound keys: every string of 3..4 (thorough
+// 3..5) bytes over the digits, signs, dot and suffix/letter characters.
+func VP_C04_numberlike_strings() {
+	n := 3 + vp.Choice(2+vp.Tier())
+	s := vp.Bytes(n)
+	alphabet := "0123456789.-+bsLfdext"
+	for _, c := range s {
+		ok := false
+		for i := 0; i < len(alphabet); i++ {
+			ok = ok || c == alphabet[i]
+		}
+		vp.Assume(ok)
+	}
+	vp.Assume(s[0] >= '0' && s[0] <= '9' || s[0] == '-' || s[0] == '+' || s[0] == '.')
+	vp.SizeBound(n + 24)
+	var b []byte
+	asKey := vp.Choice(2) == 1
+	if asKey {
+		b = append(append(vpTagHdr(TagByte, string(s)), 7), 0)
+	} else {
+		b = append(append(vpTagHdr(TagString, "k"), vpStr(string(s))...), 0)
+	}
+	var m StringifiedMessage
+	vp.Assert(m.UnmarshalNBT(TagCompound, &vpByteReader{b: b}) == nil, "a well-formed value converts to text")
+	var w vpBuf
+	vp.Assert(m.MarshalNBT(&w) == nil, "the text produced parses back")
+	vp.Assert(string(w.b) == string(b), "text form parses back to the identical value")
+	vp.Cover("end")
+}
+
+// long runs of whitespace in front of and inside a text (hand-formatted or
+// padded input): 130 and 300 blanks before the value, and between "[" and an
+// array prefix; the announced tag type and the conversion are as without them.
+func VP_C04_long_whitespace() {
+	pad := []int{130, 300}[vp.Choice(2)]
+	ws := make([]byte, pad)
+	for i := range ws {
+		ws[i] = " \t\n\r"[i%4]
+	}
+	var core string
+	var tag byte
+	var ref []byte
+	x := vp.Byte() % 10
+	switch vp.Choice(5) {
+	case 0:
+		core, tag, ref = "12345L", TagLong, vpBE(12345, 8)
+	case 1:
+		core, tag, ref = "{a:"+string([]byte{'0' + x})+"b}", TagCompound, append(append(vpTagHdr(TagByte, "a"), x), 0)
+	case 2:
+		core, tag, ref = "[I;1,2]", TagIntArray, []byte{0, 0, 0, 2, 0, 0, 0, 1, 0, 0, 0, 2}
+	case 3:
+		core, tag, ref = "\"s\"", TagString, []byte{0, 1, 's'}
+	default:
+		core, tag, ref = "[1b]", TagList, []byte{TagByte, 0, 0, 0, 1, 1}
+	}
+	text := string(ws) + core
+	if vp.Choice(2) == 1 && core[0] == '[' {
+		text = "[" + string(ws) + core[1:]
+	}
+	vp.SizeBound(len(text) + 16)
+	vp.Unwind(len(text) + 16)
+	m := StringifiedMessage(text)
+	var w vpBuf
+	vp.Assert(m.MarshalNBT(&w) == nil, "a valid text converts whatever the amount of whitespace")
+	vp.Assert(m.TagType() == tag, "announced tag type agrees with the independent reading")
+	vp.Assert(string(w.b) == string(ref), "in-range integer literal converts exactly")
+	vp.Cover("end")
+}
